@@ -2,11 +2,11 @@ use super::idmap::{IdIndex, IdMap};
 
 /// Id uniquely identifying a prefix
 #[derive(Debug, Clone, Copy, Hash, PartialEq, Eq, Ord, PartialOrd)]
-pub struct PrefixId(u16);
+pub struct PrefixId(u32);
 
 impl IdIndex<PrefixId> for PrefixId {
     fn to_id(index: usize) -> PrefixId {
-        PrefixId(index as u16)
+        PrefixId(u32::try_from(index).expect("too many ids registered"))
     }
 
     fn from_id(id: PrefixId) -> usize {
